@@ -154,6 +154,8 @@ CLAIMS.update({
    "Deductive part (the 'decoding returns an error rather than panicking' clause, hand-written half): 20 decoders of encoding/proto (schema, nodes, cluster/node status, resize instruction parts, coordinator and node-event messages, query results) never dereference nil or index out of range, for every message value in which singular sub-messages may be absent and repeated ones have non-nil elements - that is all that is assumed about the generated gogo-proto Unmarshal. Round-trip equality is covered only by the bounded stand-in. rcheck/wire: for all 28 Serializer message types and all 10 query result kinds, random values (empty/nil/boundary fields) are Marshal-ed and Unmarshal-ed and every exported field compared by reflection (nil == empty slice/map); Unmarshal is fed empty, random, truncated and bit-flipped bytes and must not panic. Two open findings (IndexInfo.Options / ShardWidth missing from the protobuf schema) are listed in known_findings.json and printed as KNOWN-FINDING.",
    TRUST + "The generated protobuf Unmarshal is assumed to produce well-typed values with non-nil repeated elements; decodeIndexStatuses is a trusted contract (its callee builds a roaring bitmap).", "contract-based deductive verification (no-panic obligations) + bounded stand-in"),
 })
+CLAIMS["C01"] = (CLAIMS["C01"][0], CLAIMS["C01"][1] + " Added: every single-value mutation kernel (arrayAdd/Remove, bitmapAdd/Remove, runAdd/Remove, arrayToBitmap, Container.add/remove): exactly v changes, the changed flag is exact, n moves by exactly one, frozen sources are never written, frames and storage ownership; and Bitmap.Contains / Bitmap.DirectAdd / Bitmap.remove against the container map (bmem): Contains returns membership, DirectAdd/remove change exactly v, keep every container well formed and keep containers separated, so any history of point updates keeps Contains equal to the set obtained by applying the mutations in order.", CLAIMS["C01"][2] + " Containers.Get/GetOrCreate/Put are trusted interface contracts over the ghost map $m (what C02 proves of both implementations); bitmapToArray is trusted; cardinality side conditions (roomOK, singleOK: consequences of n == |set|) are preconditions, not proved invariants.", CLAIMS["C01"][3])
+CLAIMS["C02"] = (CLAIMS["C02"][0], CLAIMS["C02"][1] + " Added: n-coherence steps of all mutation kernels and the Bitmap-level point operations (see C01).", CLAIMS["C02"][2], CLAIMS["C02"][3])
 BR = ("BOUNDED addition rcheck/roaring (labelled bounded, never counted as proved): model-based execution of the real Bitmap API against a set model over 15 construction flavours (slice/B-tree, optimized, mapped, frozen, cloned, imported, official-decoded ...) and boundary-heavy container keys/contents: every read, 24 set operations over all 9 container-type pairs, random mutation histories with all reads re-compared after each step, isolation of derived values, encode/decode round trips incl. a hand-written official-format encoder, op-log replay. ")
 for _k in ("C01", "C02", "C03", "C04", "C05"):
     CLAIMS[_k] = (CLAIMS[_k][0], CLAIMS[_k][1] + " " + BR, CLAIMS[_k][2], CLAIMS[_k][3] + " + bounded stand-in")
